@@ -210,6 +210,16 @@ class Opaque:
         return f"Opaque({self.what})"
 
 
+class Arb:
+    """An arbitrary value left in a field by earlier operations (state that a constructor does
+    not determine): it may be None, may compare equal to anything, may be truthy or not."""
+    def __init__(self, tag):
+        self.tag = tag
+
+    def __repr__(self):
+        return f"Arb({self.tag})"
+
+
 class GeneratorList(list):
     """A generator expression, evaluated eagerly at creation (see DESIGN §2.2)."""
     pass
